@@ -60,6 +60,23 @@ def cvc5_check(smt2_text, timeout_s=CVC5_TIMEOUT_S):
     return first if first in ('sat', 'unsat') else 'unknown'
 
 
+def has_quantifier(e):
+    r = False
+    stack = [e]
+    seen = set()
+    while stack:
+        x = stack.pop()
+        i = x.get_id()
+        if i in seen:
+            continue
+        seen.add(i)
+        if z3.is_quantifier(x):
+            r = True
+            break
+        stack.extend(x.children())
+    return r
+
+
 class Path(object):
     def __init__(self, prefix, pathid):
         self.prefix = list(prefix)
@@ -67,6 +84,10 @@ class Path(object):
         self.taken = []           # (alt, [other feasible alts]) per decision
         self.solver = z3.Solver()
         self.solver.set('timeout', Z3_TIMEOUT_MS)
+        # feasibility of branches is decided on the quantifier-free part of the
+        # path condition only (an over-approximation: extra paths, never fewer)
+        self.qf = z3.Solver()
+        self.qf.set('timeout', 2000)
         self.pc = []
         self.obligations = []
         self.trace = []           # call trace of contract callees
@@ -97,11 +118,19 @@ class Path(object):
             raise PathEnd('assumed false')
         self.pc.append(c)
         self.solver.add(c)
+        if not has_quantifier(c):
+            self.qf.add(c)
 
     def _check(self, *assumptions):
         t = time.time()
         r = self.solver.check(*assumptions)
-        self.solver_seconds += time.time() - t
+        dt = time.time() - t
+        self.solver_seconds += dt
+        if dt > 1.0 and os.environ.get('PYVC_TRACE_SLOW'):
+            import sys
+            print('SLOW %.1fs %s path=%d npc=%d assumption=%s' % (
+                dt, r, self.pathid, len(self.pc),
+                str(assumptions[0])[:300] if assumptions else ''), file=sys.stderr)
         return r
 
     # -- decisions -------------------------------------------------------
@@ -123,7 +152,16 @@ class Path(object):
                 continue
             if c is False:
                 continue
-            r = self._check(c)
+            if has_quantifier(c):
+                feas.append(i)
+                continue
+            t = time.time()
+            r = self.qf.check(c)
+            dt = time.time() - t
+            self.solver_seconds += dt
+            if dt > 0.5 and os.environ.get('PYVC_TRACE_SLOW'):
+                import sys
+                print('SLOWQF %.1fs %s path=%d %s' % (dt, r, self.pathid, str(c)[:200]), file=sys.stderr)
             if r != z3.unsat:
                 feas.append(i)
         if not feas:
